@@ -171,6 +171,19 @@ Theorem C20_unsafe_call_refuted :
 Proof. exact unsafe_call_refuted. Qed.
 
 
+(* ---- KNOWN FINDING (known_findings.txt, C20 via 11): a list element compiled out by `#[cfg(any())]`.  The faithful
+        model of the arms reaches `unwrap_unchecked` on `Err` for box_arr!, while arr! with the same arguments (and
+        box_arr! without the element) yield the one-element array: "box_arr! with the same arguments yields a Box
+        holding an equal array" fails on this input.  Replayed on the crate: harness case [6, 2, 0, 0, 11]. ---- *)
+Theorem C20_box_list_cfg_out_refuted :
+  run crate_decls w_all Runtime MArr (InList [CfgOut (User 0 3 false); User 1 10 false] 0)
+    = Done (VGA 1 [VE 10], [LEval 1]) /\
+  run crate_decls w_all Runtime MBoxArr (InList [User 1 10 false] 0)
+    = Done (VBox 1 [VE 10], [LEval 1]) /\
+  run crate_decls w_all Runtime MBoxArr (InList [CfgOut (User 0 3 false); User 1 10 false] 0) = UBhit.
+Proof. exact box_list_cfg_out_refuted. Qed.
+
+
 (* ---- tie to the current source: the arms of arr!, box_arr!, box_arr_helper! (matcher shape and
    transcriber term) and the const-ness of from_array / const_transmute / try_from_vec /
    __from_vec_helper, regenerated by tools/ga2coq from src/arr.rs, src/lib.rs, src/impl_alloc.rs on
